@@ -352,6 +352,7 @@ const (
 	zvC12DownFirst   = "down-first"   // replace before the session is established for the first time, then establish, routes
 	zvC12Bounce      = "bounce"       // established with old, routes, replace, session goes down and is re-established, routes
 	zvC12DownBetween = "down-between" // established with old, routes, session goes down, replace while down, re-established, routes
+	zvC12LiveEmpty   = "live-empty"   // established with old while the Loc-RIB holds no route at all, replace, then routes
 )
 
 var zvC12Phases = []string{"after-replace", "after-reannounce", "after-withdraw"}
@@ -367,7 +368,7 @@ type zvC12W struct {
 	viewErr string
 }
 
-func zvC12Start(cfg zvC12Cfg, side string, initial filter.Chain) *zvC12W {
+func zvC12Start(cfg zvC12Cfg, side string, initial filter.Chain, emptyRIB bool) *zvC12W {
 	route.ZZVerifResetBGPPathACache()
 	x := &zvC12W{cfg: cfg, side: side, view: map[string]string{}}
 	x.w = zvNewWorld()
@@ -386,8 +387,10 @@ func zvC12Start(cfg zvC12Cfg, side string, initial filter.Chain) *zvC12W {
 	vsched.Settle()
 	x.cB.deliver(zvwKeepalive())
 	vsched.Settle()
-	x.feedB(zvRB, true)
-	if side == "import" {
+	if !emptyRIB {
+		x.feedB(zvRB, true)
+	}
+	if side == "import" && !emptyRIB {
 		// B also has a path for P1, so that A's import policy decides the best path for P1 and with it A's Adj-RIB-Out
 		x.feedB(zvR1, true)
 	}
@@ -698,7 +701,7 @@ type zvC12Res struct {
 func zvC12Run(cfg zvC12Cfg, side, variant string, chains []zvC12Chain, mask int) zvC12Res {
 	var res zvC12Res
 	e := vsched.Exec(vsched.Config{MaxSteps: 200000}, func() {
-		x := zvC12Start(cfg, side, chains[0].build())
+		x := zvC12Start(cfg, side, chains[0].build(), variant == zvC12LiveEmpty)
 		replaceAll := func() bool {
 			for _, c := range chains[1:] {
 				if err := x.replace(c.build()); err != nil {
@@ -721,6 +724,14 @@ func zvC12Run(cfg zvC12Cfg, side, variant string, chains []zvC12Chain, mask int)
 				return
 			}
 			x.feed(mask, true)
+			res.Pre = x.observe()
+			if !replaceAll() {
+				return
+			}
+		case zvC12LiveEmpty:
+			if !up() {
+				return
+			}
 			res.Pre = x.observe()
 			if !replaceAll() {
 				return
@@ -908,7 +919,7 @@ func TestVerifC12(t *testing.T) {
 	}
 	required := []string{"conc_executions", "conc_nonempty_result", "import_cases", "export_cases", "triples", "same_policy_pairs", "policies_treat_routes_differently",
 		"replacement_must_change_tables_import", "replacement_must_change_tables_export",
-		"variant:" + zvC12Live, "variant:" + zvC12DownFirst, "variant:" + zvC12Bounce, "variant:" + zvC12DownBetween}
+		"variant:" + zvC12Live, "variant:" + zvC12DownFirst, "variant:" + zvC12Bounce, "variant:" + zvC12DownBetween, "variant:" + zvC12LiveEmpty}
 	for _, c := range cfgs {
 		required = append(required, "config:"+c.Name)
 	}
@@ -917,7 +928,7 @@ func TestVerifC12(t *testing.T) {
 	}
 	r.Require(required...)
 	r.Rule(fmt.Sprintf("policy language of %d chains (core %d); all ordered pairs (old,new) x all 8 subsets of 3 routes x {import, export} on an eBGP session in the 'live' history "+
-		"(establish with old, routes, replace) and, on one (quick) / all (thorough) route sets, the histories down-first / bounce / down-between; core pairs x %d further session configurations x 4 histories; "+
+		"(establish with old, routes, replace) and, on one (quick) / all (thorough) route sets, the histories down-first / bounce / down-between / live-empty (replacement while the Loc-RIB holds no route at all); core pairs x %d further session configurations x 5 histories; "+
 		"all ordered triples of the core; every history run on the real bgpServer under the controlled scheduler (bound 0) and compared in 3 phases (after replacement, after re-announcing all routes, "+
 		"after withdrawing them) with the same history run with the final policy configured from the start; a case whose policy pair already fails in the plain 'live' history on the eBGP session is "+
 		"not run again in the other histories/configurations/triples (counted as skipped_consequence); non-trivial = the two policies treat some route of the set differently (their reference worlds differ); "+
@@ -972,7 +983,7 @@ func TestVerifC12(t *testing.T) {
 		fewSubsets = allSubsets
 	}
 	main := cfgs[0]
-	variants := []string{zvC12Live, zvC12DownFirst, zvC12Bounce, zvC12DownBetween}
+	variants := []string{zvC12Live, zvC12DownFirst, zvC12Bounce, zvC12DownBetween, zvC12LiveEmpty}
 	isCore := map[string]bool{}
 	for _, c := range core {
 		isCore[c.Name] = true
@@ -1032,6 +1043,9 @@ func TestVerifC12(t *testing.T) {
 						if !budget() {
 							break
 						}
+						if v == zvC12LiveEmpty && m != fewSubsets[0] {
+							continue // no route set before the replacement in this history
+						}
 						enumerate(zvC12Case{Side: side, Config: main.Name, Variant: v, Old: old.Name, New: nw.Name, Subset: m}, baseFail[old.Name])
 					}
 				}
@@ -1051,6 +1065,9 @@ func TestVerifC12(t *testing.T) {
 							for _, m := range fewSubsets {
 								if !budget() {
 									break
+								}
+								if v == zvC12LiveEmpty && m != fewSubsets[0] {
+									continue
 								}
 								enumerate(zvC12Case{Side: side, Config: cfg.Name, Variant: v, Old: old.Name, New: nw.Name, Subset: m}, baseFail[old.Name])
 							}
